@@ -18,6 +18,7 @@ from . import fakeif as F
 MODEL_MAP = [
     {'python': 'pyipmi/fru.py:Fru.get_fru_inventory_area_info', 'coq': 'Model.FruIO.get_fru_inventory_area_info'},
     {'python': 'pyipmi/fru.py:Fru.read_fru_data', 'coq': 'Model.FruIO.read_fru_data/read_loop'},
+    {'python': 'pyipmi/fru.py:Fru.read_fru_data_full', 'coq': 'Model.FruIO.read_fru_data_full'},
     {'python': 'pyipmi/fru.py:Fru.write_fru_data', 'coq': 'Model.FruIO.write_fru_data/write_chunks'},
     {'python': 'pyipmi/utils.py:chunks', 'coq': 'Model.FruIO.chunks'},
     {'python': 'pyipmi/fru.py:Fru.get_fru_inventory_header + InventoryCommonHeader._from_data',
@@ -354,6 +355,8 @@ def _apply_call(ipmi, c):
         return ipmi.get_fru_inventory(**kw)
     if op == 'info':
         return ipmi.get_fru_inventory_area_info(**kw)
+    if op == 'full':
+        return ipmi.read_fru_data_full(**kw)
     raise ValueError(op)
 
 
@@ -432,8 +435,8 @@ def judge_fru_call(c, out, seg, ref, dev, wl):
     if op == 'info':
         if out[0] == 'err' or out[1] != len(mem):
             return 'wrong-size', 'area size %r, FRU %d stores %d bytes' % (out[1], i, len(mem))
-    elif op == 'read':
-        whole = c.get('off') is None
+    elif op in ('read', 'full'):
+        whole = op == 'full' or c.get('off') is None
         off, cnt = (0, len(mem)) if whole else (c['off'], c['cnt'])
         if off + cnt > len(mem):
             if out[0] != 'err' or not isinstance(out[1], CompletionCodeError):
@@ -804,7 +807,7 @@ def run(ctx):
             i = rng.choice(ids + [None, None]) if i == 'rand' else i    # None: rely on the default fru_id=0
             mem = cur[tgt[obj]][i if i is not None else 0]
             size = len(mem)
-            op = op or rng.choice(['read', 'read', 'whole', 'whole', 'write', 'inventory', 'info'])
+            op = op or rng.choice(['read', 'read', 'whole', 'full', 'write', 'inventory', 'info'])
             c = {'op': op, 'id': i, 'obj': obj}
             if op == 'whole':
                 c.update(op='read', off=None)
@@ -845,6 +848,14 @@ def run(ctx):
                 switch(rng.choice('AB'))
             else:
                 client_call()
+        # write, read the same range back, read the whole area (C10_write_then_read / _whole)
+        for pat in range(2):
+            obj, i = rng.choice('AB'), rng.choice(ids + [None])
+            client_call('write', obj, i)
+            w = calls[-1]
+            if w['op'] == 'write':
+                calls.append({'op': 'read', 'id': i, 'obj': obj, 'off': w['off'], 'cnt': len(w['data']) // 2})
+                calls.append({'op': 'full', 'id': i, 'obj': rng.choice('AB')})
         # directed patterns on ONE object: full read / size / inventory of an id, then the FRU behind that
         # id changes on the device side (replaced, or the target is switched), then the same again
         for pat in range(2):
@@ -875,6 +886,8 @@ def run(ctx):
             devt = 'chk_dev %s %d %d [] ex %s' % (c_mems(before), limit, rej, after)
             if c['op'] == 'read':
                 t = 'chk_read %s %d ex %s' % (c_rng(c.get('off'), c.get('cnt')), i, c_res(out, C.c_hex))
+            elif c['op'] == 'full':
+                t = 'chk_read None %d ex %s' % (i, c_res(out, C.c_hex))
             elif c['op'] == 'write':
                 t = 'chk_write %d %s %d %d ex %s' % (wl, C.c_hex(bytes.fromhex(c['data'])), c.get('off') or 0, i,
                                                     c_res(out, lambda v: 'tt'))
